@@ -15,8 +15,14 @@ use crate::common::{is_thorough, ExpSpec};
 pub struct C12;
 
 impl Checker for C12 {
+    fn plan(&self) -> harness::sess::Plan {
+        // (the payload of the last call's writes is needed for its in-call crash points)
+        harness::sess::Plan { log_data: true, ..Default::default() }
+    }
+
     fn check(&self, cfg: &Cfg, ops: &[Op], ex: &Exec) -> Vec<(String, String)> {
         let mut v = o::o_dirty("C12", ops, ex);
+        v.extend(in_call_crash_points(cfg, ops, ex));
         // One storage fault during an early modifying call, then the session goes on: whatever the failed call
         // left behind, once a later call has changed the volume the dirty bit must be on the disk.
         let n = ops.len();
@@ -103,6 +109,56 @@ impl Checker for C12 {
         }
         v
     }
+}
+
+/// Every device write of the call is a potential point of abandonment as well: as long as the status byte on the
+/// storage says clean, the image must still be what it was before the call (allocation, entry sets, sizes, data -
+/// independent decode; timestamps do not count). Only calls that start with the bit clear have such points.
+fn in_call_crash_points(cfg: &Cfg, ops: &[Op], ex: &Exec) -> Vec<(String, String)> {
+    let mut v = Vec::new();
+    if ex.panic.is_some() || !ex.completed || matches!(ops.last(), None | Some(Op::Remount | Op::DropRemount | Op::Abandon)) {
+        return v;
+    }
+    let status_of = |st: &harness::dev::DevState| harness::decoder::parse_raw(&st.read_vec(0, 512)).map(|g| g.status).unwrap_or(0xFF);
+    let mut st = harness::dev::DevState::new(cfg.base.clone());
+    st.overlay = ex.pre_overlay.clone();
+    if status_of(&st) & 1 != 0 {
+        return v;
+    }
+    let Ok(pre) = harness::sess::decode_dev(&st, cfg, &[]) else { return v };
+    let fa = pre.flat();
+    let writes = ex.log.iter().filter(|r| r.kind == harness::dev::Kind::Write).count();
+    let mut seen = 0;
+    for r in &ex.log {
+        if r.kind != harness::dev::Kind::Write {
+            continue;
+        }
+        let Some(d) = &r.data else { return v };
+        st.write_at(r.off, d);
+        seen += 1;
+        if status_of(&st) & 1 != 0 {
+            break;
+        }
+        let differ = match harness::sess::decode_dev(&st, cfg, &[]) {
+            Ok(b) => {
+                let fb = b.flat();
+                fa.len() != fb.len()
+                    || fa.iter().zip(fb.iter()).any(|((ka, na), (kb, nb))| ka != kb || na.is_dir != nb.is_dir || na.size != nb.size || na.content != nb.content)
+                    || pre.free != b.free
+                    || pre.owner != b.owner
+            }
+            Err(_) => true,
+        };
+        if differ {
+            let kind = harness::explore::op_kind(ops.last().unwrap());
+            v.push((
+                format!("C12/in-call-crash-point/changed-volume-marked-clean/{kind}"),
+                format!("after device write {seen} of {writes} of {:?} (offset {:#x}, {} bytes) the image differs from the one before the call and the status byte still says clean", ops.last().unwrap(), r.off, r.len),
+            ));
+            break;
+        }
+    }
+    v
 }
 
 impl C12 {
